@@ -428,7 +428,11 @@ def prepareCache(
     @return: A L{IntersphinxCache} instance.
     """
     if clearCache:
-        shutil.rmtree(cachePath)
+        try:
+            shutil.rmtree(cachePath)
+        except FileNotFoundError:
+            # Nothing to clear: the cache directory was never created.
+            pass
     if enableCache:
         maxAgeDictionary = parseMaxAge(maxAge)
         return IntersphinxCache.fromParameters(
